@@ -605,6 +605,12 @@ def dress(model, rng, *, time=None, depth=None, band=None, per_kind=(1, 2), miss
         extras.append(('index', int(rng.integers(2, 4))))
     add_variables(model, rng, per_kind=per_kind, extras=extras, missing=missing, dtypes=dtypes or DTYPES,
                   nongrid=nongrid, permute=permute, kinds=kinds, max_extra=max_extra)
+    if model.encoding.get('two_dim', 'Two') != 'Two' and chance(rng, 0.4):
+        # the mesh calls the length-two dimension of its edge tables something else, and an unrelated variable happens to
+        # use a dimension that IS called 'Two' (a pair of flags, time bounds): it has nothing to do with the mesh
+        from .base import Var
+        model.variables['pair_of_flags'] = Var('pair_of_flags', None, [('Two', 2)], ['Two'], model.fresh_ids((2,)), 'float64', None,
+                                               attrs={'long_name': 'two numbers that have nothing to do with the mesh'})
     if GRID_MAPPING_POLICY['on'] and chance(rng, 0.3):
         # CF grid mapping: a dimensionless variable describing the coordinate reference system, named by the
         # grid_mapping attribute of data variables. It is neither a geometry variable nor defined on any grid.
